@@ -1,9 +1,10 @@
 /- all line-protocol handlers -/
 import PhotVerif.Driver.Geom
 import PhotVerif.Driver.ApSum
+import PhotVerif.Driver.Detect
 namespace PhotVerif.Driver
 
-def handlers : List (String → List String → Option String) := [handleGeom, handleMask, handleApSum]
+def handlers : List (String → List String → Option String) := [handleGeom, handleMask, handleApSum, handleDetect]
 
 def dispatch (line : String) : String :=
   match tokens line with
